@@ -252,6 +252,10 @@ func (ex *Exec) maybeHavoc(fr *Frame, phi *ssa.Phi) {
 	if w <= 0 {
 		ex.unsupported("havoc of non-scalar loop variable %s", name)
 	}
+	if t, ok := ex.havocVals[key]; ok {
+		ex.set(fr, phi, ex.tc.Resize(t, w, false))
+		return
+	}
 	ex.set(fr, phi, ex.fresh("hv", w))
 }
 
